@@ -486,7 +486,9 @@ func (m *FloatPreAgg) unmarshal(src []byte) ([]byte, error) {
 }
 
 func (m *FloatPreAgg) VLCEncode(dst []byte) []byte {
-	if m.maxV == 0 && m.minV == 0 {
+	// min, max and sum are dropped only when all three are +0.0 bit for bit: the decoder restores +0.0, so -0.0 and a
+	// NaN sum (zeros and NaN in one column) must be written out
+	if math.Float64bits(m.maxV) == 0 && math.Float64bits(m.minV) == 0 && math.Float64bits(m.sumV) == 0 {
 		dst = append(dst, 0)
 	} else {
 		dst = append(dst, 1)
